@@ -27,11 +27,12 @@ type Own struct {
 	ID       int64 `gorm:"primaryKey"`
 	Name     string
 	TargetID *int64
-	Target   *Tgt   `gorm:"foreignKey:TargetID"`
-	One      *One   `gorm:"foreignKey:OwnID"`
-	Many     []Many `gorm:"foreignKey:OwnID"`
+	Target   *Tgt    `gorm:"foreignKey:TargetID"`
+	One      *One    `gorm:"foreignKey:OwnID"`
+	Many     []Many  `gorm:"foreignKey:OwnID"`
 	Notes    []*Note `gorm:"polymorphic:Owner;polymorphicValue:xp"`
-	Tags     []Tag  `gorm:"many2many:own_tags"`
+	Badge    *Badge  `gorm:"polymorphic:Owner;polymorphicValue:xp"`
+	Tags     []Tag   `gorm:"many2many:own_tags"`
 	PTags    []*PTag `gorm:"many2many:own_ptags"`
 }
 type One struct {
@@ -45,6 +46,12 @@ type Many struct {
 	OwnID *int64
 }
 type Note struct {
+	ID        int64 `gorm:"primaryKey"`
+	Name      string
+	OwnerID   *int64
+	OwnerType string
+}
+type Badge struct {
 	ID        int64 `gorm:"primaryKey"`
 	Name      string
 	OwnerID   *int64
@@ -80,11 +87,12 @@ var rels = map[string]RelD{
 	"One":    {Name: "One", Kind: "KHasOne", Table: "ones", FK: "own_id", Elem: reflect.TypeOf(One{})},
 	"Many":   {Name: "Many", Kind: "KHasMany", Table: "manies", FK: "own_id", Elem: reflect.TypeOf(Many{})},
 	"Notes":  {Name: "Notes", Kind: "KHasMany", Table: "notes", FK: "owner_id", Poly: true, Elem: reflect.TypeOf(Note{})},
+	"Badge":  {Name: "Badge", Kind: "KHasOne", Table: "badges", FK: "owner_id", Poly: true, Elem: reflect.TypeOf(Badge{})},
 	"Target": {Name: "Target", Kind: "KBelongs", Table: "tgts", FK: "target_id", Elem: reflect.TypeOf(Tgt{})},
 	"Tags":   {Name: "Tags", Kind: "KM2M", Table: "tags", JTable: "own_tags", JOwner: "own_id", JTgt: "tag_id", Elem: reflect.TypeOf(Tag{})},
 	"PTags":  {Name: "PTags", Kind: "KM2M", Table: "p_tags", JTable: "own_ptags", JOwner: "own_id", JTgt: "p_tag_id", Elem: reflect.TypeOf(PTag{})},
 }
-var relNames = []string{"One", "Many", "Notes", "Target", "Tags", "PTags"}
+var relNames = []string{"One", "Many", "Notes", "Notes", "Badge", "Target", "Tags", "PTags"}
 
 const polyOther = 1000 // owner ids of rows with another owner_type are shifted by this
 
@@ -116,12 +124,13 @@ type Input struct {
 // ---------------------------------------------------------------- observation
 
 type Snap struct {
-	Links [][]int64 `json:"links"`
-	Tgts  []int64   `json:"targets"`
-	Count int64     `json:"count"`
-	Find  []int64   `json:"find"`
-	Mem   [][]int64 `json:"mem"`
-	Err   string    `json:"err,omitempty"`
+	Links [][]int64  `json:"links"`
+	Tgts  []int64    `json:"targets"`
+	Count int64      `json:"count"`
+	Find  []int64    `json:"find"`
+	Mem   [][]int64  `json:"mem"`
+	Other [][2]int64 `json:"other"` // links of the same tables that do not belong to the handle
+	Err   string     `json:"err,omitempty"`
 }
 
 type Env struct {
@@ -163,6 +172,63 @@ func (e *Env) linksOf(r RelD, owner int64) []int64 {
 	return sorted(e.ints("SELECT id FROM "+r.Table+" WHERE "+r.FK+" = ?", owner))
 }
 
+// othersOf reads, by raw SQL, every link of the relation's tables that does not belong to the handle:
+// other owners and (polymorphic) rows of other owner types, whose owner ids are shifted by polyOther.
+func (e *Env) othersOf(r RelD, handle []int64) [][2]int64 {
+	in := func(o int64) bool {
+		for _, h := range handle {
+			if h == o {
+				return true
+			}
+		}
+		return false
+	}
+	out := [][2]int64{}
+	switch r.Kind {
+	case "KBelongs":
+		rows, err := e.sql.Query("SELECT id, " + r.FK + " FROM owns WHERE " + r.FK + " IS NOT NULL ORDER BY id")
+		lib.Must(err)
+		defer rows.Close()
+		for rows.Next() {
+			var a, b int64
+			lib.Must(rows.Scan(&a, &b))
+			if !in(a) {
+				out = append(out, [2]int64{a, b})
+			}
+		}
+	case "KM2M":
+		rows, err := e.sql.Query("SELECT " + r.JOwner + ", " + r.JTgt + " FROM " + r.JTable + " ORDER BY 1, 2")
+		lib.Must(err)
+		defer rows.Close()
+		for rows.Next() {
+			var a, b int64
+			lib.Must(rows.Scan(&a, &b))
+			if !in(a) {
+				out = append(out, [2]int64{a, b})
+			}
+		}
+	default:
+		q := "SELECT id, " + r.FK + ", 'xp' FROM " + r.Table + " WHERE " + r.FK + " IS NOT NULL ORDER BY id"
+		if r.Poly {
+			q = "SELECT id, " + r.FK + ", owner_type FROM " + r.Table + " WHERE " + r.FK + " IS NOT NULL ORDER BY id"
+		}
+		rows, err := e.sql.Query(q)
+		lib.Must(err)
+		defer rows.Close()
+		for rows.Next() {
+			var id, o int64
+			var ty string
+			lib.Must(rows.Scan(&id, &o, &ty))
+			if ty != "xp" {
+				out = append(out, [2]int64{id, o + polyOther})
+			} else if !in(o) {
+				out = append(out, [2]int64{id, o})
+			}
+		}
+	}
+	return out
+}
+
 func fieldIDs(owner reflect.Value, name string) []int64 {
 	fv := owner.FieldByName(name)
 	out := []int64{}
@@ -194,7 +260,7 @@ type Result struct {
 }
 
 func (e *Env) reset() {
-	for _, t := range []string{"owns", "ones", "manies", "notes", "tgts", "tags", "p_tags", "own_tags", "own_ptags"} {
+	for _, t := range []string{"owns", "ones", "manies", "notes", "badges", "tgts", "tags", "p_tags", "own_tags", "own_ptags"} {
 		lib.Must(e.db.Exec("DELETE FROM " + t).Error)
 	}
 	e.db.Exec("DELETE FROM sqlite_sequence")
@@ -296,6 +362,7 @@ func (e *Env) run(in Input) Result {
 			s.Mem = append(s.Mem, fieldIDs(reflect.ValueOf(owners[i]), r.Name))
 		}
 		s.Tgts = e.ints("SELECT id FROM " + r.Table + " ORDER BY id")
+		s.Other = e.othersOf(r, in.Owners)
 		s.Count = db.Model(model()).Association(r.Name).Count()
 		out := reflect.New(reflect.SliceOf(r.Elem))
 		ferr := db.Model(model()).Association(r.Name).Find(out.Interface())
@@ -404,7 +471,8 @@ func gSnap(s Snap) string {
 	if s.Err != "" {
 		e = 1
 	}
-	return lib.App("mk_snap", gLists(s.Links), lib.ZList(s.Tgts), lib.Z(s.Count), lib.ZList(s.Find), gLists(s.Mem), lib.Z(e))
+	other := lib.ListOf(s.Other, func(p [2]int64) string { return lib.Pair(lib.Z(p[0]), lib.Z(p[1])) })
+	return lib.App("mk_snap", gLists(s.Links), lib.ZList(s.Tgts), lib.Z(s.Count), lib.ZList(s.Find), gLists(s.Mem), other, lib.Z(e))
 }
 func gOp(o OpIn) string {
 	var t string
@@ -477,8 +545,10 @@ func genInput(r *lib.Rng, maxOps int, edge bool) Input {
 	}
 	if rel.Poly {
 		// rows of another owner type carrying the same owner ids
+		// (they may be given to an owner of the handle: the save must move owner_id AND owner_type;
+		// and they may be named in a Delete of THIS relation, which must not touch them)
 		for _, t := range in.Targets {
-			if r.Chance(1, 5) {
+			if r.Chance(1, 3) {
 				in.Links = append(in.Links, Link{Owner: lib.Pick(r, in.Owners), Target: t, Other: true})
 			}
 		}
@@ -498,12 +568,6 @@ func genInput(r *lib.Rng, maxOps int, edge bool) Input {
 	// targets already given to some owner of the handle during this history (has-kinds: a target is
 	// never given to two different owners of the handle - DESIGN 8.0 / props.d domain)
 	given := map[int64]int{}
-	otherRows := map[int64]bool{}
-	for _, l := range in.Links {
-		if l.Other {
-			otherRows[l.Target] = true
-		}
-	}
 	pickFor := func(owner int, used map[int64]bool) int64 {
 		for tries := 0; tries < 20; tries++ {
 			var t int64
@@ -513,9 +577,6 @@ func genInput(r *lib.Rng, maxOps int, edge bool) Input {
 			t = lib.Pick(r, in.Targets)
 			if rel.Kind == "KHasOne" || rel.Kind == "KHasMany" {
 				if g, ok := given[t]; ok && g != owner {
-					continue
-				}
-				if otherRows[t] {
 					continue
 				}
 			}
@@ -722,7 +783,7 @@ func main() {
 	a := lib.ParseArgs()
 	db, _, sqlDB, err := gdb.Open(gdb.Opt{})
 	lib.Must(err)
-	lib.Must(db.AutoMigrate(&Tgt{}, &Tag{}, &PTag{}, &Own{}, &One{}, &Many{}, &Note{}))
+	lib.Must(db.AutoMigrate(&Tgt{}, &Tag{}, &PTag{}, &Own{}, &One{}, &Many{}, &Note{}, &Badge{}))
 	env := &Env{db: db, sql: sqlDB}
 	out := lib.NewOut(a.Out, "C12")
 	out.PerFile = 200
@@ -799,6 +860,6 @@ func main() {
 		out.Count("known_shape", sig(in))
 		add(kind, in)
 	}
-	out.Extra["rule"] = "cases = histories of 1..8 (thorough 12) operations Append/Replace/Delete/Clear, each scoped or Unscoped, on one relation of kind {has one, has many, polymorphic has many, belongs to, many2many with struct elements, many2many with pointer elements}, through db.Model(&owner) or db.Model(&owners) with 1..3 owners that start without links, next to 0..2 outside owners with existing links; targets are new records, existing unlinked rows, rows linked to the same owner, rows linked to outside owners, and duplicates; Count(), Find(), raw foreign keys / join rows, the target table and the in-memory fields are read after every operation; domain: for has one / has many / polymorphic a target is never given to two different owners of one handle; distinct = distinct (relation, handle, table sizes, operation sequence with sizes) shapes; non-trivial = the stored links change at least twice"
+	out.Extra["rule"] = "cases = histories of 1..8 (thorough 12) operations Append/Replace/Delete/Clear, each scoped or Unscoped, on one relation of kind {has one, has many, polymorphic has many and polymorphic has one (next to rows of ANOTHER owner type that carry the same owner ids, and that may be moved into the relation or named in its Delete), belongs to, many2many with struct elements, many2many with pointer elements}, through db.Model(&owner) or db.Model(&owners) with 1..3 owners that start without links, next to 0..2 outside owners with existing links; targets are new records, existing unlinked rows, rows linked to the same owner, rows linked to outside owners, and duplicates; Count(), Find(), raw foreign keys / join rows of the handle AND of every other owner / owner type, the target table and the in-memory fields are read after every operation; domain: for has one / has many / polymorphic a target is never given to two different owners of one handle; distinct = distinct (relation, handle, table sizes, operation sequence with sizes) shapes; non-trivial = the stored links change at least twice"
 	lib.Must(out.Flush())
 }
